@@ -24,7 +24,7 @@ PROPERTIES_FILE = "theories/Properties/C12.v"
 IMPL = "harness.props.c12_impl"
 TABLE_DEPS = ["atom_cas_mode"]
 SHARD = 150
-NWORKERS = 3
+NWORKERS = 1      # one basilisp bootstrap (12 s, not parallelisable on this VM) per phase beats sharding ~25 s of work
 HARD_TIMEOUT = 300
 WORKER_ENV = {"VERIF_CASE_SOFT_TIMEOUT": "240"}
 TAGGED = True
